@@ -35,13 +35,13 @@ def plans(quick):
     return [
         dict(family='names', name_mode=True, checks=[dict(steps=5, slots=2, force=False, fail=False, count=True)], gen=dict(steps=4, slots=1, force=False), walks=200, sim=dict(num=600, depth=14)),
         dict(family='chain', gen=dict(steps=6, slots=2, rcs=['r1'], lists=[['r1']], force=False, fail=False, restart=False)),
-        dict(family='pair', gen=dict(steps=6, slots=2, force=False, fail=False), walks=20000, walk_len=7),
+        dict(family='pair', gen=dict(steps=6, slots=2, force=False, fail=False), walks=8000, walk_len=7),
         dict(family='kinds', checks=[dict(steps=5, slots=2, force=False, fail=False, count=True)],
              gen=dict(steps=4, slots=1, force=False), walks=200, sim=dict(num=800, depth=14)),
     ] + [
         dict(family=f,
              checks=[dict(steps=8, slots=2, force=False, fail=False, count=True), dict(steps=5, slots=2, count=True)],
-             gen=dict(steps=(4 if f == 'chain' else 5), slots=1, force=False), walks=300, walk_len=16, sim=dict(num=2000, depth=18))
+             gen=dict(steps=(4 if f == 'chain' else 5), slots=1, force=False), walks=300, walk_len=16, sim=dict(num=700, depth=18))
         for f in ('chain', 'mounts', 'diamond')
     ]
 
